@@ -16,7 +16,7 @@ def tealEdges (ins : List Ins) : Except Err (List (Nat × List Nat × List Nat))
   let t ← parseTeal ins
   pure ((t.live.filterMap t.block?).map fun (b : Block) => (b.idx, b.next, b.prev))
 
-theorem C12_iso_tiny : (funcEdges tiny).toOption = (tealEdges tiny).toOption ∧ (funcEdges tiny).toOption.isSome = true := by decide
+theorem C12_iso_tiny : (funcEdges tiny).toOption = (tealEdges tiny).toOption ∧ (funcEdges tiny).toOption.isSome = true := by decide +kernel
 
 /-- error blocks are leaves that lead nowhere and contain the custom error instruction: an execution that leaves the
     dispatch path there cannot be approved -/
